@@ -492,3 +492,384 @@ Proof.
 Qed.
 
 End Link2.
+
+(* ---- the pre-passes on the emitted text (lines may contain newlines: multi-line lists) ------------------------------------------------------ *)
+Lemma line_tok l : line_ok l = true -> tok_text l = true.
+Proof.
+  unfold line_ok, plain. intros H. apply andb_true_iff in H as [H Hf]. apply andb_true_iff in H as [H1 H2].
+  apply negb_true_iff in H1. apply negb_true_iff in H2. apply tok_text_line; assumption.
+Qed.
+Lemma tok_unlines1 l : tok_text (unlines [l]) = tok_text l.
+Proof. rewrite tok_text_unlines_cons. cbn [unlines flat_map]. rewrite tok_text_nil, andb_true_r. reflexivity. Qed.
+
+Lemma plain_sc v : scalar_ok v = true -> plain (sc_text v) = true.
+Proof.
+  destruct v; cbn [scalar_ok]; intros H; try discriminate H; unfold sc_text; cbn [sval_of sval_text]; try reflexivity.
+  - destruct b; reflexivity.
+  - apply plain_num. exact H.
+  - apply plain_quote.
+Qed.
+Lemma plain_comment c : comment_ok c = true -> plain c = true.
+Proof. unfold comment_ok, plain. intros H. apply andb_true_iff in H as [H _]. exact H. Qed.
+Lemma plain_comment_line c : comment_ok c = true -> plain (comment_line c) = true.
+Proof. intros H. destruct c as [|x r]; [reflexivity|]. unfold comment_line, s_comment_pre. rewrite plain_app, (plain_comment _ H). reflexivity. Qed.
+Lemma plain_trailing t : trail_ok t = true -> plain (emit_trailing t) = true.
+Proof.
+  destruct t as [[|x r]|]; try reflexivity. cbn [trail_ok emit_trailing]. intros H.
+  rewrite plain_cons. unfold s_comment_pre. rewrite plain_app, (plain_comment _ H). reflexivity.
+Qed.
+
+(* what a list item text must satisfy for the physical lines of the multi-line layout *)
+Definition itxt_ok (x : str) : bool :=
+  plain x && match x with c :: _ => negb (N.eqb c c_sp) && negb (N.eqb c c_bt) | [] => false end.
+Lemma itxt_of v : scalar_ok v = true -> is_scalar v = true -> itxt_ok (sc_text v) = true.
+Proof.
+  intros Hs Hi. destruct (is_scalar_sval _ Hi) as (sv & E). unfold itxt_ok. rewrite (plain_sc _ Hs). cbn [andb].
+  destruct (sval_text_hd v sv Hs E) as (x & t & Ex & H1 & _ & H3). unfold sc_text. rewrite E, Ex.
+  rewrite (neqb _ _ H1), (neqb _ _ H3). reflexivity.
+Qed.
+Lemma itxts_of items : forallb scalar_ok items = true -> forallb is_scalar items = true -> forallb itxt_ok (map sc_text items) = true.
+Proof.
+  induction items as [|x r IH]; [reflexivity|]. cbn [forallb map]. intros H1 H2.
+  apply andb_true_iff in H1 as [A1 A2]. apply andb_true_iff in H2 as [B1 B2]. rewrite (itxt_of _ A1 B1), (IH A2 B2). reflexivity.
+Qed.
+
+Lemma plain_inline texts : forallb itxt_ok texts = true -> plain (body_text GNone GNone GNone texts) = true.
+Proof.
+  induction texts as [|x r IH]; [reflexivity|]. cbn [forallb]. intros H. apply andb_true_iff in H as [Hx Hr].
+  unfold itxt_ok in Hx. apply andb_true_iff in Hx as [Hx _].
+  destruct r as [|y r'].
+  - cbn [body_text gap_text app]. rewrite plain_app, Hx. reflexivity.
+  - change (body_text GNone GNone GNone (x :: y :: r')) with (x ++ c_comma :: body_text GNone GNone GNone (y :: r')).
+    rewrite plain_app, plain_cons, Hx, (IH Hr). reflexivity.
+Qed.
+
+Lemma itxt_line D x t : itxt_ok x = true -> plain t = true -> line_ok (ind D ++ x ++ t) = true.
+Proof.
+  unfold itxt_ok. intros H Ht. apply andb_true_iff in H as [Hp Hh]. destruct x as [|c x']; [discriminate Hh|].
+  apply andb_true_iff in Hh as [H1 H2]. apply negb_true_iff, N.eqb_neq in H1. apply negb_true_iff, N.eqb_neq in H2.
+  unfold line_ok. rewrite !plain_app, plain_ind, Hp, Ht. cbn [andb app]. apply fence_free_ind; assumption.
+Qed.
+
+Lemma tt_body D : forall texts pfx sfx, texts <> [] -> forallb itxt_ok texts = true ->
+  line_ok pfx = true -> line_ok (ind D ++ s_rb ++ sfx) = true ->
+  tok_text (pfx ++ body_text (GNl (S D)) (GNl D) (GNl (S D)) texts ++ sfx) = true.
+Proof.
+  induction texts as [|x r IH]; [congruence|]. intros pfx sfx _ H Hp Hs. cbn [forallb] in H. apply andb_true_iff in H as [Hx Hr].
+  destruct r as [|y r'].
+  - change (body_text (GNl (S D)) (GNl D) (GNl (S D)) [x]) with ((c_nl :: ind (S D)) ++ x ++ (c_nl :: ind D) ++ s_rb).
+    replace (pfx ++ ((c_nl :: ind (S D)) ++ x ++ (c_nl :: ind D) ++ s_rb) ++ sfx)
+      with (pfx ++ c_nl :: ((ind (S D) ++ x ++ []) ++ c_nl :: (ind D ++ s_rb ++ sfx))).
+    2:{ rewrite app_nil_r. cbn [app]. rewrite <- !app_assoc. cbn [app]. rewrite <- !app_assoc. reflexivity. }
+    rewrite !tok_text_nl, (line_tok _ Hp), (line_tok _ Hs), (line_tok _ (itxt_line (S D) x [] Hx eq_refl)). reflexivity.
+  - change (body_text (GNl (S D)) (GNl D) (GNl (S D)) (x :: y :: r'))
+      with ((c_nl :: ind (S D)) ++ x ++ c_comma :: body_text (GNl (S D)) (GNl D) (GNl (S D)) (y :: r')).
+    replace (pfx ++ ((c_nl :: ind (S D)) ++ x ++ c_comma :: body_text (GNl (S D)) (GNl D) (GNl (S D)) (y :: r')) ++ sfx)
+      with (pfx ++ c_nl :: ((ind (S D) ++ x ++ [c_comma]) ++ body_text (GNl (S D)) (GNl D) (GNl (S D)) (y :: r') ++ sfx)).
+    2:{ cbn [app]. rewrite <- !app_assoc. cbn [app]. reflexivity. }
+    rewrite tok_text_nl, (line_tok _ Hp). cbn [andb].
+    apply IH; [discriminate|exact Hr|apply itxt_line; [exact Hx|reflexivity]|exact Hs].
+Qed.
+
+(* a line  PFX value SFX  where PFX starts the physical line and SFX ends it *)
+Lemma tok_val_line D v pfx sfx : cval v = true -> val_ok v = true ->
+  (forall t, plain t = true -> line_ok (pfx ++ t) = true) -> plain sfx = true ->
+  tok_text (pfx ++ val_text D v ++ sfx) = true.
+Proof.
+  intros Hc Hok Hp Hs.
+  assert (Hone : forall t, plain t = true -> tok_text (pfx ++ t ++ sfx) = true).
+  { intros t Ht. apply line_tok, Hp. rewrite plain_app, Ht, Hs. reflexivity. }
+  destruct v; cbn [cval is_scalar sval_of] in Hc; try discriminate Hc; try (apply Hone; apply plain_sc; exact Hok).
+  cbn [val_ok] in Hok. destruct items as [|x xs]; [apply Hone; reflexivity|].
+  pose proof (itxts_of _ Hok Hc) as Hit. cbn [val_text]. destruct (ml (x :: xs)).
+  - change (pfx ++ (c_lbr :: ?b) ++ sfx) with (pfx ++ [c_lbr] ++ b ++ sfx). rewrite app_assoc.
+    apply tt_body; [discriminate|exact Hit|apply Hp; reflexivity|].
+    unfold line_ok. rewrite !plain_app, plain_ind, Hs. cbn [andb]. unfold s_rb. cbn [app]. apply fence_free_ind; chr.
+  - apply Hone. rewrite plain_cons, (plain_inline _ Hit). reflexivity.
+Qed.
+
+Lemma key_pfx D k u : key_ok k = true -> plain u = true -> forall t, plain t = true -> line_ok ((ind D ++ k ++ u) ++ t) = true.
+Proof. intros Hk Hu t Ht. rewrite <- !app_assoc. apply line_ok_key; [exact Hk|]. rewrite plain_app, Hu, Ht. reflexivity. Qed.
+
+Lemma tok_leading D cs : forallb comment_ok cs = true -> tok_text (unlines (emit_leading cs D)) = true.
+Proof.
+  induction cs as [|c cs IH]; [reflexivity|]. cbn [forallb emit_leading map]. intros H. apply andb_true_iff in H as [Hc Hcs].
+  rewrite tok_text_unlines_cons. fold (emit_leading cs D). rewrite (IH Hcs), andb_true_r.
+  apply line_tok. unfold line_ok. rewrite plain_app, plain_ind, (plain_comment_line _ Hc). cbn [andb].
+  destruct (comment_line_hd c) as (t & ->). apply fence_free_ind; chr.
+Qed.
+
+Lemma plain_sid i : sid_ok i = true -> plain i = true.
+Proof.
+  unfold sid_ok. intros H. apply orb_true_iff in H as [H|H]; [apply plain_digs; exact H|].
+  unfold key_ok in H. apply andb_true_iff in H as [H _]. apply andb_true_iff in H as [H _]. apply andb_true_iff in H as [H _].
+  apply plain_key, word_ok_chars. exact H.
+Qed.
+Lemma plain_keyok k : key_ok k = true -> plain k = true.
+Proof.
+  unfold key_ok. intros H. apply andb_true_iff in H as [H _]. apply andb_true_iff in H as [H _]. apply andb_true_iff in H as [H _].
+  apply plain_key, word_ok_chars. exact H.
+Qed.
+
+Lemma node_text_ok : forall n, core2_node n = true -> lex_safe2_node n = true -> forall D, tok_text (unlines (emit_node_lines n D)) = true.
+Proof.
+  apply (node_ind2 (fun n => core2_node n = true -> lex_safe2_node n = true -> forall D, tok_text (unlines (emit_node_lines n D)) = true)).
+  - intros k v l t Hc Hs D. cbn [core2_node] in Hc. apply andb_true_iff in Hc as [Hcv Hne].
+    cbn [lex_safe2_node] in Hs. apply andb_true_iff in Hs as [Hs Ht]. apply andb_true_iff in Hs as [Hs Hl]. apply andb_true_iff in Hs as [Hk Hv].
+    destruct (assign_val_text k v D Hcv Hv) as (Etext & Hvok).
+    rewrite (emit_assign_line2 k v l t D Hcv), Etext, tok_text_unlines_app, (tok_leading D l Hl), tok_unlines1. cbn [andb].
+    replace (ind D ++ k ++ s_assign ++ val_text D v ++ emit_trailing t) with ((ind D ++ k ++ s_assign) ++ val_text D v ++ emit_trailing t)
+      by (rewrite <- !app_assoc; reflexivity).
+    apply tok_val_line; [exact Hcv|exact Hvok|apply key_pfx; [exact Hk|reflexivity]|apply plain_trailing; exact Ht].
+  - intros k tg ch l IH Hc Hs D. cbn [core2_node] in Hc. destruct tg; [discriminate|].
+    apply andb_true_iff in Hc as [_ Hcc]. cbn [lex_safe2_node] in Hs. apply andb_true_iff in Hs as [Hs Hss]. apply andb_true_iff in Hs as [Hk Hl].
+    rewrite (emit_block_lines2 k ch l D Hcc), !tok_text_unlines_app, (tok_leading D l Hl), tok_unlines1. cbn [andb].
+    rewrite (line_tok _ (line_ok_key D k ([] ++ [c_colon]) Hk eq_refl)). cbn [andb].
+    induction ch as [|c cs IHc]; [reflexivity|]. inversion IH as [|? ? Pc Pcs]; subst.
+    cbn [forallb] in Hcc, Hss. apply andb_true_iff in Hcc as [Hc1 Hc2]. apply andb_true_iff in Hss as [Hs1 Hs2].
+    cbn [flat_map]. rewrite tok_text_unlines_app, (Pc Hc1 Hs1 (S D)), (IHc Pcs Hc2 Hs2). reflexivity.
+  - intros i k a ch l IH Hc Hs D. cbn [core2_node] in Hc. apply andb_true_iff in Hc as [Hne Hc]. apply andb_true_iff in Hc as [_ Hcc].
+    cbn [lex_safe2_node] in Hs. apply andb_true_iff in Hs as [Hs Hss]. apply andb_true_iff in Hs as [Hs Hl].
+    apply andb_true_iff in Hs as [Hs Ha]. apply andb_true_iff in Hs as [Hi Hk].
+    rewrite (emit_section_lines2 i k a ch l D), !tok_text_unlines_app, (tok_leading D l Hl), tok_unlines1. cbn [andb].
+    assert (Hline : line_ok (ind D ++ [167] ++ i ++ s_assign ++ k ++ annot_text a) = true).
+    { unfold line_ok. rewrite !plain_app, plain_ind, (plain_sid _ Hi), (plain_keyok _ Hk). cbn [andb].
+      assert (Pa : plain (annot_text a) = true).
+      { destruct a as [[|x a']|]; try reflexivity. cbn [annot_ok annot_text] in *. rewrite !plain_app, (plain_keyok _ Ha). reflexivity. }
+      rewrite Pa. cbn [andb app]. apply fence_free_ind; chr. }
+    rewrite (line_tok _ Hline). cbn [andb].
+    induction ch as [|c cs IHc]; [reflexivity|]. inversion IH as [|? ? Pc Pcs]; subst.
+    cbn [forallb] in Hcc, Hss. apply andb_true_iff in Hcc as [Hc1 Hc2]. apply andb_true_iff in Hss as [Hs1 Hs2].
+    cbn [flat_map]. rewrite tok_text_unlines_app, (Pc Hc1 Hs1 (S D)), (IHc Pcs Hc2 Hs2). reflexivity.
+  - intros t Hc; discriminate Hc.
+Qed.
+
+(* ---- the emitted lines of a core2 document ---------------------------------------------------------------------------------------------------- *)
+Definition meta_lines (m : list (str * metaval)) : list str := match m with [] => [] | _ => s_meta_hdr :: map meta_line m end.
+
+Lemma core2_sections_lines secs : forallb core2_node secs = true ->
+  flat_map (fun n => match n with NComment _ => [] | _ => emit_node_lines n 0 end) secs = flat_map (fun n => emit_node_lines n 0) secs.
+Proof.
+  induction secs as [|c cs IH]; [reflexivity|]. cbn [forallb]. intros H. apply andb_true_iff in H as [H1 H2].
+  cbn [flat_map]. rewrite (IH H2). destruct c; try reflexivity. discriminate H1.
+Qed.
+
+Lemma emit_lines_core2 sp d : core2_doc d = true -> lex_safe2_doc d = true ->
+  emit_lines sp d = grammar_lines d ++ [s_env ++ dname d ++ s_env] ++ meta_lines (dmeta d) ++ (if dsep d then [s_sep] else []) ++
+                    flat_map (fun n => emit_node_lines n 0) (dsections d) ++ emit_leading (dtrailing d) 0 ++ [s_end].
+Proof.
+  destruct d as [name gr fr sep meta secs trl]. unfold core2_doc, lex_safe2_doc, emit_lines, grammar_lines.
+  cbn [dfront dmeta dtrailing dsections dgrammar dname dsep].
+  destruct fr; [discriminate|]. intros Hc Hs.
+  apply andb_true_iff in Hc as [Hc _]. apply andb_true_iff in Hc as [Hc _]. apply andb_true_iff in Hc as [Hc Hm]. apply andb_true_iff in Hc as [Hc _].
+  apply andb_true_iff in Hs as [Hs _]. apply andb_true_iff in Hs as [Hs _]. apply andb_true_iff in Hs as [Hs _]. apply andb_true_iff in Hs as [_ Hg].
+  rewrite (core2_sections_lines _ Hc). cbn [app].
+  assert (Eg : match truthy gr with Some g => [s_octave ++ g] | None => [] end = match gr with Some g => [s_octave ++ g] | None => [] end).
+  { destruct gr as [g|]; [|reflexivity]. destruct (ver_ok_nonempty _ Hg) as (x & r & ->). reflexivity. }
+  rewrite Eg. destruct meta as [|kv m]; [reflexivity|].
+  cbv zeta. rewrite (emit_meta_lines_core _ Hm). reflexivity.
+Qed.
+
+Lemma meta_field_parts kv : meta_field_ok kv = true -> meta_ok kv = true ->
+  exists v, snd kv = MV v /\ cval v = true /\ key_ok (fst kv) = true /\ meta_line kv = ind 1 ++ fst kv ++ s_assign ++ val_text 1 v ++ emit_trailing None /\
+            val_ok v = true.
+Proof.
+  unfold meta_field_ok, meta_ok, meta_line. destruct (snd kv) as [v|]; [|discriminate]. intros Hc H. apply andb_true_iff in H as [Hk Hv].
+  destruct (meta_val_text v 1 Hc Hv) as (E & Hok). exists v. split; [reflexivity|]. split; [exact Hc|]. split; [exact Hk|].
+  split; [rewrite E; cbn [emit_trailing]; rewrite app_nil_r; reflexivity|exact Hok].
+Qed.
+
+Lemma emit_text_ok sp d : core2_doc d = true -> lex_safe2_doc d = true -> tok_text (emit sp d) = true.
+Proof.
+  intros Hc Hs. rewrite emit_unlines, (emit_lines_core2 sp d Hc Hs).
+  destruct d as [name gr fr sep meta secs trl]. unfold core2_doc, lex_safe2_doc, grammar_lines in *.
+  cbn [dfront dmeta dtrailing dsections dgrammar dname dsep] in *.
+  destruct fr; [discriminate|].
+  apply andb_true_iff in Hc as [Hc _]. apply andb_true_iff in Hc as [Hc _]. apply andb_true_iff in Hc as [Hc Hmf]. apply andb_true_iff in Hc as [Hc _].
+  apply andb_true_iff in Hs as [Hs Htr]. apply andb_true_iff in Hs as [Hs Hm]. apply andb_true_iff in Hs as [Hs Hn]. apply andb_true_iff in Hs as [Hname Hg].
+  assert (A1 : tok_text (unlines (match gr with Some g => [s_octave ++ g] | None => [] end)) = true).
+  { destruct gr as [g|]; [|reflexivity]. rewrite tok_unlines1. apply line_tok. unfold line_ok. rewrite plain_app, (plain_ver _ Hg). reflexivity. }
+  assert (A2 : tok_text (s_env ++ name ++ s_env) = true).
+  { apply line_tok. unfold line_ok. unfold name_ok in Hname. apply andb_true_iff in Hname as [Hw _].
+    rewrite !plain_app, (plain_key _ (word_ok_chars _ Hw)). reflexivity. }
+  assert (A3 : tok_text (unlines (meta_lines meta)) = true).
+  { unfold meta_lines. destruct meta as [|kv0 m0]; [reflexivity|]. set (m := kv0 :: m0) in *. clearbody m.
+    rewrite tok_text_unlines_cons. change (tok_text s_meta_hdr) with true. cbn [andb].
+    induction m as [|kv m IH]; [reflexivity|]. cbn [forallb map] in *.
+    apply andb_true_iff in Hmf as [F1 F2]. apply andb_true_iff in Hm as [M1 M2].
+    rewrite tok_text_unlines_cons, (IH F2 M2), andb_true_r.
+    destruct (meta_field_parts kv F1 M1) as (v & _ & Hcv & Hk & -> & Hok).
+    replace (ind 1 ++ fst kv ++ s_assign ++ val_text 1 v ++ emit_trailing None) with ((ind 1 ++ fst kv ++ s_assign) ++ val_text 1 v ++ [])
+      by (rewrite <- !app_assoc; reflexivity).
+    apply tok_val_line; [exact Hcv|exact Hok|apply key_pfx; [exact Hk|reflexivity]|reflexivity]. }
+  assert (A4 : tok_text (unlines (if sep then [s_sep] else [])) = true) by (destruct sep; reflexivity).
+  assert (A5 : tok_text (unlines (flat_map (fun n => emit_node_lines n 0) secs)) = true).
+  { clear -Hc Hn. induction secs as [|c cs IH]; [reflexivity|]. cbn [forallb] in Hc, Hn.
+    apply andb_true_iff in Hc as [Hc1 Hc2]. apply andb_true_iff in Hn as [Hn1 Hn2].
+    cbn [flat_map]. rewrite tok_text_unlines_app, (node_text_ok c Hc1 Hn1 0%nat), (IH Hc2 Hn2). reflexivity. }
+  rewrite !tok_text_unlines_app, A1, A3, A4, A5, (tok_leading 0 trl Htr), !tok_unlines1, A2. reflexivity.
+Qed.
+
+Section Doc2.
+Variable cls : N -> N.
+
+Lemma all_L2_nodes ns : Forall (L2_node cls) ns.
+Proof. apply Forall_forall. intros n _. apply all_L2_node. Qed.
+
+Lemma key_ok_META : key_ok [77;69;84;65] = true.
+Proof. vm_compute. reflexivity. Qed.
+
+Lemma lex_meta_fields m : forall st rest, forallb meta_field_ok m = true -> forallb meta_ok m = true ->
+  ls_in st = unlines (map meta_line m) ++ rest -> ready st ->
+  exists st', lexto cls st (flat_map (fun kv => indent_sh 1 ++ [(IDENTIFIER, Some (TVText (fst kv))); (ASSIGN, None)] ++
+                                      (match snd kv with MV v => val_sh ml 1 v | MD _ => [] end) ++ [(NEWLINE, None)]) m) st' /\
+              ls_in st' = rest /\ ready st'.
+Proof.
+  induction m as [|kv m IH]; intros st rest Hf Hm Hin Hr.
+  - exists st. split; [apply lexto_refl|split; [exact Hin|exact Hr]].
+  - cbn [forallb map] in *. apply andb_true_iff in Hf as [F1 F2]. apply andb_true_iff in Hm as [M1 M2].
+    destruct (meta_field_parts kv F1 M1) as (v & Ev & Hcv & Hk & El & Hok).
+    rewrite unlines_cons, El, <- app_assoc in Hin. cbn [app] in Hin.
+    destruct (lex_kv_line cls 1 (fst kv) v None st _ Hk Hcv Hok eq_refl eq_refl Hin Hr) as (st1 & L1 & I1 & R1).
+    destruct (IH st1 rest F2 M2 I1 R1) as (st2 & L2 & I2 & R2).
+    exists st2. split; [|split; assumption]. cbn [flat_map]. rewrite Ev. eapply lexto_trans; [exact L1|exact L2].
+Qed.
+
+Lemma lex_doc2 sp d : core2_doc d = true -> lex_safe2_doc d = true ->
+  forall st, ls_in st = emit sp d -> ls_pos st = 0 -> ls_spans st = [] ->
+  exists st', lexto cls st (doc2_sh ml idnum_digits d ++ [(NEWLINE, None)]) st' /\ ls_in st' = [].
+Proof.
+  intros Hc Hs st Hin Hp Hsp. rewrite emit_unlines, (emit_lines_core2 sp d Hc Hs) in Hin.
+  destruct d as [name gr fr sep meta secs trl]. unfold core2_doc, lex_safe2_doc, grammar_lines, doc2_sh in *.
+  cbn [dfront dmeta dtrailing dsections dgrammar dname dsep] in *.
+  destruct fr; [discriminate|].
+  apply andb_true_iff in Hc as [Hc _]. apply andb_true_iff in Hc as [Hc _]. apply andb_true_iff in Hc as [Hc Hmf]. apply andb_true_iff in Hc as [Hc _].
+  apply andb_true_iff in Hs as [Hs Htr]. apply andb_true_iff in Hs as [Hs Hm]. apply andb_true_iff in Hs as [Hs Hn]. apply andb_true_iff in Hs as [Hname Hg].
+  rewrite !unlines_app, <- ?app_assoc in Hin.
+  set (TAIL := unlines (meta_lines meta) ++ unlines (if sep then [s_sep] else []) ++
+               unlines (flat_map (fun n => emit_node_lines n 0) secs) ++ unlines (emit_leading trl 0) ++ unlines [s_end]) in *.
+  (* grammar line *)
+  assert (HA : exists st1, lexto cls st (match gr with Some g => [(GRAMMAR_SENTINEL, Some (TVText g)); (NEWLINE, None)] | None => [] end) st1 /\
+                           ls_in st1 = s_env ++ name ++ s_env ++ c_nl :: TAIL /\ ls_spans st1 = []).
+  { destruct gr as [g|].
+    - cbn [unlines flat_map] in Hin. rewrite ?app_nil_r, <- ?app_assoc in Hin. cbn [app] in Hin.
+      destruct (T_sentinel cls st g _ Hg Hin Hp Hsp) as (st0 & T0).
+      assert (S0 : ls_spans st0 = []) by (rewrite (tstep_spans _ _ _ _ _ _ _ T0); exact Hsp).
+      destruct (lex_newline cls st0 _ (tstep_in _ _ _ _ _ _ _ T0) S0) as (st1 & L1 & I1 & (_ & _ & S1)).
+      exists st1. split; [|split; [exact I1|exact S1]].
+      change [(GRAMMAR_SENTINEL, Some (TVText g)); (NEWLINE, None)] with ([(GRAMMAR_SENTINEL, Some (TVText g))] ++ [(NEWLINE, None)]).
+      eapply lexto_trans; [|exact L1]. eapply lexto_tstep; [exact T0|reflexivity|right; reflexivity].
+    - cbn [unlines flat_map app] in Hin. rewrite ?app_nil_r, <- ?app_assoc in Hin. cbn [app] in Hin.
+      exists st. split; [apply lexto_refl|split; [exact Hin|exact Hsp]]. }
+  destruct HA as (st1 & L1 & I1 & S1). clear Hin Hp Hsp.
+  (* envelope start *)
+  destruct (T_env_start cls st1 name _ Hname I1 S1) as (st2 & T2).
+  assert (S2 : ls_spans st2 = []) by (rewrite (tstep_spans _ _ _ _ _ _ _ T2); exact S1).
+  destruct (lex_newline cls st2 _ (tstep_in _ _ _ _ _ _ _ T2) S2) as (st3 & L3 & I3 & R3).
+  subst TAIL.
+  (* META *)
+  assert (HM : exists st4, lexto cls st3 (meta_sh ml meta) st4 /\
+                           ls_in st4 = unlines (if sep then [s_sep] else []) ++ unlines (flat_map (fun n => emit_node_lines n 0) secs) ++
+                                       unlines (emit_leading trl 0) ++ unlines [s_end] /\ ready st4).
+  { destruct meta as [|kv0 m0]; [exists st3; split; [apply lexto_refl|split; [exact I3|exact R3]]|].
+    set (m := kv0 :: m0) in *. unfold meta_lines in I3. cbn [meta_sh]. fold m.
+    change (match m with [] => [] | _ :: _ => s_meta_hdr :: map meta_line m end) with (s_meta_hdr :: map meta_line m) in I3.
+    rewrite unlines_cons, <- app_assoc in I3. cbn [app] in I3.
+    destruct (lex_block_header cls 0 [77;69;84;65] st3 _ key_ok_META I3 R3) as (st4 & L4 & I4 & R4).
+    destruct (lex_meta_fields m st4 _ Hmf Hm I4 R4) as (st5 & L5 & I5 & R5).
+    exists st5. split; [|split; assumption]. eapply lexto_trans; [exact L4|exact L5]. }
+  destruct HM as (st4 & L4 & I4 & R4).
+  (* separator *)
+  assert (HB : exists st5, lexto cls st4 (if sep then [(SEPARATOR, None); (NEWLINE, None)] else []) st5 /\
+                           ls_in st5 = unlines (flat_map (fun n => emit_node_lines n 0) secs) ++ unlines (emit_leading trl 0) ++ unlines [s_end] /\
+                           ready st5).
+  { destruct sep.
+    - cbn [unlines flat_map app] in I4. rewrite <- ?app_assoc in I4. cbn [app] in I4.
+      pose proof R4 as (_ & _ & S4).
+      destruct (T_sep cls st4 _ I4 S4) as (st' & T').
+      assert (S' : ls_spans st' = []) by (rewrite (tstep_spans _ _ _ _ _ _ _ T'); exact S4).
+      destruct (lex_newline cls st' _ (tstep_in _ _ _ _ _ _ _ T') S') as (st5 & L5 & I5 & R5).
+      exists st5. split; [|split; [exact I5|exact R5]].
+      change [(SEPARATOR, None); (NEWLINE, None)] with ([(SEPARATOR, @None tvalue)] ++ [(NEWLINE, None)]).
+      eapply lexto_trans; [|exact L5]. eapply lexto_tstep; [exact T'|reflexivity|left; reflexivity].
+    - exists st4. split; [apply lexto_refl|split; [exact I4|exact R4]]. }
+  destruct HB as (st5 & L5 & I5 & R5).
+  (* sections, trailing comments *)
+  destruct (lex_nodes2 cls secs (all_L2_nodes secs) Hc Hn 0%nat st5 _ I5 R5) as (st6 & L6 & I6 & R6).
+  destruct (lex_lead cls 0 trl st6 _ Htr I6 R6) as (st7 & L7 & I7 & (_ & _ & S7)).
+  (* envelope end + final newline *)
+  cbn [unlines flat_map] in I7. rewrite app_nil_r in I7.
+  destruct (T_env_end cls st7 [] I7 S7) as (st8 & T8).
+  assert (S8 : ls_spans st8 = []) by (rewrite (tstep_spans _ _ _ _ _ _ _ T8); exact S7).
+  destruct (lex_newline cls st8 [] (tstep_in _ _ _ _ _ _ _ T8) S8) as (st9 & L9 & I9 & _).
+  exists st9. split; [|exact I9].
+  rewrite <- !app_assoc.
+  eapply lexto_trans; [exact L1|].
+  change ([(ENVELOPE_START, Some (TVText name)); (NEWLINE, None)] ++ ?x)
+    with ([(ENVELOPE_START, Some (TVText name))] ++ [(NEWLINE, @None tvalue)] ++ x).
+  eapply lexto_trans; [eapply lexto_tstep; [exact T2|reflexivity|right; reflexivity]|].
+  eapply lexto_trans; [exact L3|]. eapply lexto_trans; [exact L4|]. eapply lexto_trans; [exact L5|].
+  eapply lexto_trans; [exact L6|]. eapply lexto_trans; [exact L7|].
+  eapply lexto_trans; [|exact L9]. eapply lexto_tstep; [exact T8|reflexivity|left; reflexivity].
+Qed.
+
+(* (1) THE LEXER HALF for core2 documents *)
+Theorem lex_emit_core2 sp d : core2_doc d = true -> lex_safe2_doc d = true ->
+  exists ts tnl teof,
+    tokenize cls false (lines_of (emit sp d)) = LexOk (ts ++ [tnl; teof]) [] /\
+    Forall2 tmatch ts (doc2_sh ml idnum_digits d) /\ tk tnl = NEWLINE /\ tk teof = EOF.
+Proof.
+  intros Hc Hs.
+  rewrite (tokenize_tok_text cls false _ (emit_text_ok sp d Hc Hs)).
+  set (st0 := mkLS (emit sp d) None 0 1 1 [] [] [] []).
+  destruct (lex_doc2 sp d Hc Hs st0 eq_refl eq_refl eq_refl) as (st' & (Hst & (tsall & Ht & HF) & Hr & Hb & _) & Hin).
+  rewrite (run_steps_finish cls st0 st' _ Hst Hin) by (cbn [ls_in st0]; lia).
+  apply Forall2_app_inv_r in HF. destruct HF as (ts & tl & HF1 & HF2 & ->).
+  inversion HF2 as [|tnl ? ? ? [Hnl _] HF3]; subst. inversion HF3; subst. cbn [fst] in Hnl.
+  exists ts, tnl, (mkTok EOF TVNone (ls_line st') (ls_col st') None).
+  split; [|split; [exact HF1|split; [exact Hnl|reflexivity]]].
+  unfold finish. rewrite Hb, Hr, Ht. cbn [ls_brk ls_reps ls_toks st0 rev app].
+  rewrite app_nil_r, rev_involutive, <- app_assoc. reflexivity.
+Qed.
+
+(* (2) THE TEXT-LEVEL ROUND TRIP for core2 documents *)
+Lemma emit_first_line2 sp d : core2_doc d = true -> lex_safe2_doc d = true ->
+  exists l0 r, split_on c_nl (emit sp d) = l0 :: r /\ prefixb s_dashes l0 = false.
+Proof.
+  intros Hc Hs. pose proof Hs as Hs'. rewrite emit_unlines, (emit_lines_core2 sp d Hc Hs). unfold grammar_lines.
+  unfold lex_safe2_doc in Hs'. apply andb_true_iff in Hs' as [Hs' _]. apply andb_true_iff in Hs' as [Hs' _]. apply andb_true_iff in Hs' as [Hs' _].
+  apply andb_true_iff in Hs' as [Hname Hg].
+  destruct (dgrammar d) as [g|].
+  - cbn [app]. rewrite unlines_cons, split_on_app.
+    + eexists _, _. split; [reflexivity|reflexivity].
+    + pose proof (plain_ver _ Hg) as P. unfold plain in P. apply andb_true_iff in P as [P _]. apply negb_true_iff in P.
+      rewrite memb_app, P. reflexivity.
+  - cbn [app]. rewrite unlines_cons, split_on_app.
+    + eexists _, _. split; [reflexivity|reflexivity].
+    + unfold name_ok in Hname. apply andb_true_iff in Hname as [Hw _].
+      pose proof (plain_key _ (word_ok_chars _ Hw)) as P. unfold plain in P. apply andb_true_iff in P as [P _]. apply negb_true_iff in P.
+      rewrite !memb_app, P. reflexivity.
+Qed.
+
+Theorem text_roundtrip_core2 numcanon holo_ok strict sp d :
+  core2_doc d = true -> lex_safe2_doc d = true ->
+  nums_ok2_l numcanon idnum_digits (dsections d) -> Forall (field_num_ok numcanon) (dmeta d) ->
+  exists warns,
+    parse_model cls numcanon holo_ok strict (lines_of (emit sp d)) = PRDoc d [] warns /\ Forall advisory warns.
+Proof.
+  intros Hc Hs Hnum Hmnum.
+  destruct (lex_emit_core2 sp d Hc Hs) as (ts & tnl & teof & Htok & HF & _ & _).
+  destruct (emit_first_line2 sp d Hc Hs) as (l0 & r & El & Hl0).
+  unfold parse_model.
+  rewrite (strip_frontmatter_none (u_space cls) (emit sp d) l0 r El Hl0).
+  rewrite Htok.
+  destruct (parse_core2_doc numcanon holo_ok strict (u_space cls) (u_alpha cls) ml idnum_digits d Hc Hnum Hmnum
+              (mkPS (ts ++ [tnl; teof]) None 0 [] 0 []) ts [tnl; teof]) as (st' & Hp & (l & Hw & Hadv) & _);
+    [discriminate|reflexivity|exact HF|reflexivity|].
+  rewrite Hp. exists (rev (pwarns st')). split.
+  - f_equal. destruct d as [name gr fr sep meta secs trl]. unfold core2_doc in Hc. cbn [dfront] in Hc.
+    destruct fr; [discriminate Hc|]. reflexivity.
+  - rewrite Hw. cbn [pwarns]. rewrite app_nil_r. apply Forall_rev. exact Hadv.
+Qed.
+
+End Doc2.
